@@ -198,6 +198,10 @@ def check_case(case):
             cls, why2 = R.classify(mnem, intent)
             if cls == "reject":
                 bad("accepted: " + why2.split(":")[0], "rejected ({})".format(why2), "bytes {} = {}".format(body.hex().upper(), rec.get("key")))
+            elif cls == "open" and callable(why2) and "ren" not in case and not SYM_RE.search(text) and "ZZ9" not in text and intent.get("nterms", 1) == 1:
+                msg = why2(rec)          # a form that may be refused, but has one meaning when it is accepted
+                if msg is not None:
+                    bad("encoded as something else", "the operand as written", "{} <- bytes {}".format(msg, body.hex().upper()))
             elif cls == "valid" and "ren" not in case and not SYM_RE.search(text) and "ZZ9" not in text and intent.get("nterms", 1) == 1:
                 # purely numeric operands only: what a symbol or an expression evaluates to is C04's subject (and its findings)
                 msg = why2(rec)          # "... rather than encoded as something else": the meaning the documented grammar gives the text
